@@ -120,7 +120,9 @@ Definition row_follows_rfc (r : N * schema) : bool :=
 (* ---- IPSECKEY (rdata/ipseckey.rs): the form of the gateway field depends on
    the gateway type octet (0 none, 1 IPv4, 2 IPv6, 3 an uncompressed name), so
    there is one row per gateway type; parse picks the row by that octet.  A
-   gateway name with the is_compressed() flag is refused (pname_nc_dec). *)
+   gateway name with the is_compressed() flag is refused (pname_nc_dec); whether
+   the octets consumed are compared with the uncompressed length as well (which
+   refuses a pointer-only gateway too) is read from the source (T1). *)
 Definition gateway_fields (g : N) : list field :=
   if g =? 1 then [V4] else if g =? 2 then [V6] else if g =? 3 then [NameU false] else [].
 Definition ipseckey_schema (g : N) : schema :=
@@ -130,7 +132,7 @@ Definition ipseckey_parse (m : bytes) (pos lim : N) : outcome value :=
   else match get m (pos + 1) with
        | None => Panic P_INDEX
        | Some g => if 3 <? g then Err E_FORM
-                   else parse_rdata pname_nc_dec (ipseckey_schema g) m pos lim
+                   else parse_rdata (pname_nc_dec Gen.ipseckey_checks_consumed) (ipseckey_schema g) m pos lim
        end.
 (* the row for a value / for the tokens of a T2 case: hint = gateway type *)
 Definition schema_for (t hint : N) : option schema :=
@@ -206,6 +208,18 @@ Definition option_table : list (N * schema) :=
   ].
 Definition option_schema (code : N) : schema :=
   match lookup code option_table with Some s => s | None => plain [Rest] end.
+
+(* the typed view of a 16-octet server cookie (StandardServerCookie, RFC 9018):
+   version, three reserved octets, timestamp, hash.  ServerCookie::
+   try_to_standard succeeds exactly on 16 octets.  The EXTRA-TEXT of an
+   Extended DNS Error stays octets: ExtendedError keeps text that is not valid
+   UTF-8 as it is (row 15 above), only its typed view distinguishes. *)
+Definition std_cookie_schema : schema := plain [U8; FFix 3; U32; FFix 8].
+Definition c05_stdcookie (d : bytes) : option value :=
+  match parse_rdata flat_dec std_cookie_schema d 0 (len d) with
+  | Ok v => Some v
+  | _ => None
+  end.
 
 Definition c05_optdata (code : N) (d : bytes) : outcome value :=
   parse_rdata flat_dec (option_schema code) d 0 (len d).
